@@ -236,6 +236,8 @@ func main() {
 		}
 		if c.Space == "depth" {
 			checkDepthDev(h, md, c.Path, c.Depth, c.DevAt-1, c.DevFD)
+		} else if c.Space == "nested-alloc" {
+			checkNestedAlloc(h, md, c.Path, c.Depth, c.DevAt)
 		} else {
 			b, _ := hex.DecodeString(c.Bytes)
 			decode(h, md, b, c.Space, true)
@@ -253,6 +255,7 @@ func main() {
 	runShort(h, types)
 	runEdits(h, types)
 	runDepth(h, types)
+	runNestedAlloc(h, types)
 	h.AddExtra("inputs_accepted", accepted.Load())
 	h.AddExtra("inputs_rejected", rejected.Load())
 	if accepted.Load() < 1000 || rejected.Load() < 1000 {
@@ -690,6 +693,79 @@ func checkDepthDev(h *hz.H, md protoreflect.MessageDescriptor, nums []int32, lev
 			h.ViolateMin(fmt.Sprintf("C06/depth-followup-panic/%s", md.FullName()), fmt.Sprintf("%d nested levels accepted, follow-up panicked: %v", levels, p), c, levels)
 		}
 	}
+}
+
+// nestedWithUnknowns: `levels` messages nested along the cyclic path, every level starting with one small record its
+// type does not know, the innermost holding one unknown length-delimited record of `payload` bytes.
+func nestedWithUnknowns(md protoreflect.MessageDescriptor, path []protoreflect.FieldDescriptor, levels, payload int) []byte {
+	ua := enum.UnknownAlphabet(typeAtLevel(md, path, levels-1), enum.Reduced)
+	n, _, _ := protowire.ConsumeTag(ua[1])
+	inner := protowire.AppendBytes(protowire.AppendTag(nil, n, protowire.BytesType), bytes.Repeat([]byte{'p'}, payload))
+	for lvl := levels - 2; lvl >= 0; lvl-- {
+		fd := path[lvl%len(path)]
+		rec := append([]byte(nil), enum.UnknownAlphabet(typeAtLevel(md, path, lvl), enum.Reduced)[0]...)
+		rec = protowire.AppendTag(rec, protowire.Number(fd.Number()), protowire.BytesType)
+		if fd.IsMap() {
+			entry := protowire.AppendBytes([]byte{0x12}, inner)
+			rec = protowire.AppendBytes(rec, entry)
+		} else {
+			rec = protowire.AppendBytes(rec, inner)
+		}
+		inner = rec
+	}
+	return inner
+}
+
+// checkNestedAlloc: the memory a decode allocates stays proportional to the input length however the input is nested
+// (a decoder that reserves "the rest of the input" at every level allocates levels x input).
+func checkNestedAlloc(h *hz.H, md protoreflect.MessageDescriptor, nums []int32, levels, payload int) {
+	path := pathFrom(md, nums)
+	if path == nil {
+		h.InternalError("nested-alloc: path does not exist in this schema")
+		return
+	}
+	in := nestedWithUnknowns(md, path, levels, payload)
+	c := bcase{Type: string(md.FullName()), Space: "nested-alloc", Path: nums, Depth: levels, DevAt: payload}
+	h.Eval(true, hz.Hash("nested-alloc", string(md.FullName()), fmt.Sprint(nums), fmt.Sprint(levels, payload)))
+	d := enum.NewDyn(md)
+	refErr := proto.Unmarshal(in, d)
+	var ms0, ms1 runtime.MemStats
+	g := enum.NewGo(md)
+	var err error
+	runtime.ReadMemStats(&ms0)
+	p := hz.Catch(func() { err = proto.Unmarshal(in, g) })
+	runtime.ReadMemStats(&ms1)
+	if p != nil || (err == nil) != (refErr == nil) {
+		h.ViolateMin(fmt.Sprintf("C06/nested-unknowns/%s", md.FullName()), fmt.Sprintf("%d levels along %v of %s, an unknown record at every level and %d unknown bytes innermost: panic=%v err=%v, reference err=%v", levels, nums, md.FullName(), payload, p, err, refErr), c, levels)
+		return
+	}
+	alloc := ms1.TotalAlloc - ms0.TotalAlloc
+	// generous: 8 x input for copies of the payload, 4 KiB per level for the message structs, 64 KiB slack
+	if limit := uint64(8*len(in) + 4096*levels + 64<<10); alloc > limit {
+		h.ViolateMin(fmt.Sprintf("C06/allocation-nested/%s/path=%v", md.FullName(), shapePath(path)), fmt.Sprintf("decoding %d bytes (%d levels along fields %v of %s, a small unknown record at every level, %d unknown bytes innermost) allocated %d bytes (limit %d = 8 x input + 4 KiB per level + 64 KiB)", len(in), levels, nums, md.FullName(), payload, alloc, limit), c, levels)
+	}
+	if r := float64(alloc) / float64(len(in)); r > maxNestedRatio {
+		maxNestedRatio = r
+	}
+}
+
+var maxNestedRatio float64
+
+func runNestedAlloc(h *hz.H, types []protoreflect.MessageDescriptor) {
+	n := 0
+	for _, md := range types {
+		for _, p := range recursivePaths(md) {
+			if lite && n >= 40 {
+				break
+			}
+			for _, shape := range [][2]int{{200, 64 << 10}, {50, 1 << 20}, {2000, 4 << 10}} {
+				checkNestedAlloc(h, md, pathNums(p), shape[0], shape[1])
+				n++
+			}
+		}
+	}
+	h.Rep.Bounds["nested_allocation_cases"] = n
+	h.AddExtra("nested_allocation_max_bytes_allocated_per_input_byte", fmt.Sprintf("%.2f", maxNestedRatio))
 }
 
 func deepRangeN(m protoreflect.Message) { deepRange(m, -100000) }
